@@ -178,6 +178,16 @@ func regProp(id, level, rule string, verdict []string, which regWhich, nontrivia
 				p = nestedProfile(r, cfg)
 				p.W["a.oob"], p.W["dispose"] = 1, 1
 			}
+			if r.Sub("wide-types").Chance(0.25) {
+				// many distinct type infos side by side: the shared type-info table of one slab grows past the
+				// indexes that fit the short CBOR forms, and type infos themselves take two encoded sizes
+				p.TypeRange = 60
+			}
+			if id == "C05" || id == "C06" {
+				// a mutation that fails half-way (the value cannot produce its storable) is an operation too:
+				// the tree and its reported sizes are judged right after it
+				p.W["failstor"] = 2
+			}
 			if id == "C09" {
 				// some commits meet a failing ledger write or delete on their first attempt and are retried: a
 				// deletion forgotten after a rejected delete leaves a register nobody references
@@ -186,6 +196,17 @@ func regProp(id, level, rule string, verdict []string, which regWhich, nontrivia
 			return p
 		},
 		setup: func(w *World) {
+			if id == "C05" || id == "C06" {
+				w.CheckNow = func(w *World) *Violation {
+					if v := w.regCheck(which); v != nil {
+						return v
+					}
+					if which.structure {
+						return w.accessTraversal()
+					}
+					return nil
+				}
+			}
 			if which.reach {
 				w.AfterStep = func(w *World, st *Step) *Violation {
 					if st.Op == "commit" || st.Op == "reopen" {
@@ -216,7 +237,8 @@ func init() {
 	defer func() {
 		// the many-child-maps scenario (see props_crash.go): on the unchanged tree its commit is refused (a C03
 		// finding, not a C07 matter); should the encoder ever accept it, the content read back must be right
-		Props["C07"].Directed = append(Props["C07"].Directed, directedManyChildMaps, directedManyCompactMaps)
+		Props["C07"].Directed = append(Props["C07"].Directed, directedManyChildMaps, directedManyCompactMaps, directedSharedTypeInfos)
+		Props["C06"].Directed = append(Props["C06"].Directed, directedSharedTypeInfos)
 	}()
 	regProp("C05", "exploration",
 		"size-adversarial histories (boundary-biased element sizes, grow/shrink at both ends and in the middle, nested and large values, collision-prone digesters) at swarm slab sizes; after every stride the view a commit would leave is parsed by the independent register parser and checked for size band, per-element limits, child headers, sibling links and digest order, and - model-free, on the live containers - every element a traversal yields must be what the lookup by its position / key returns; non-trivial = a tree of height >= 2 with >= 3 slabs was checked and both insertions and removals happened; distinct by trace hash",
